@@ -1986,7 +1986,8 @@ Qed.
 (** owners named by effects and memos exist *)
 Definition bwf (s : bstate) : Prop :=
   Forall (fun e => e_owner e < length (owners (b_core s))) (effs s) /\
-  Forall (fun m => m_owner m < length (owners (b_core s))) (memos s).
+  Forall (fun m => m_owner m < length (owners (b_core s))) (memos s) /\
+  Forall (fun m => i_owner m < length (owners (b_core s))) (imms s).
 
 Definition bstep_ok (s s' : bstate) : Prop :=
   cstep_ok (b_core s) (b_core s') /\ (bwf s -> bwf s').
@@ -1997,12 +1998,14 @@ Proof. intros [C1 W1] [C2 W2]. split; [eapply cstep_trans; eauto|auto]. Qed.
 Lemma bstep_len s s' : bstep_ok s s' -> length (owners (b_core s)) <= length (owners (b_core s')).
 Proof. intros [(_ & _ & H) _]. exact H. Qed.
 
-Lemma bwf_grow s s' : effs s' = effs s -> memos s' = memos s ->
+Lemma Forall_lt_mono {A} (f : A -> nat) n n' l : n <= n' -> Forall (fun x => f x < n) l -> Forall (fun x => f x < n') l.
+Proof. intros Hle H. eapply Forall_impl; [|exact H]. cbn. intros; lia. Qed.
+
+Lemma bwf_grow s s' : effs s' = effs s -> memos s' = memos s -> imms s' = imms s ->
   length (owners (b_core s)) <= length (owners (b_core s')) -> bwf s -> bwf s'.
 Proof.
-  intros Ee Em Hl [H1 H2]. unfold bwf. rewrite Ee, Em. split.
-  - eapply Forall_impl; [|exact H1]. cbn. intros; lia.
-  - eapply Forall_impl; [|exact H2]. cbn. intros; lia.
+  intros Ee Em Ei Hl (H1 & H2 & H3). unfold bwf. rewrite Ee, Em, Ei.
+  repeat split; eapply Forall_lt_mono; eauto.
 Qed.
 
 (** a step that only changes the core *)
@@ -2031,7 +2034,8 @@ Qed.
 
 Lemma exec_stmt_ok : forall st cur s, cur < length (owners (b_core s)) -> bstep_ok s (exec_stmt cur st s).
 Proof.
-  fix IH 1. intros st cur s Hcur. destruct st as [| | |ty v|ty|b|b|b]; cbn [exec_stmt].
+  fix IH 1. intros st cur s Hcur.
+  destruct st as [| | |ty v|ty|b|b|b|b|b]; cbn [exec_stmt].
   - pose proof (cstep_alloc cur (IVal (length (handles s))) (b_core s) (fun _ => I)) as H.
     destruct (alloc cur (IVal (length (handles s))) (b_core s)) as [k c]. cbn [snd] in H.
     split; [exact H|]. apply bwf_grow; auto. destruct H as (_ & _ & H). exact H.
@@ -2046,14 +2050,14 @@ Proof.
     assert (Ho : fst (new_owner (Some cur) (b_core s)) = length (owners (b_core s))) by reflexivity.
     destruct (new_owner (Some cur) (b_core s)) as [o c]. cbn [fst snd] in *. subst o.
     set (o := length (owners (b_core s))) in *.
-    set (s1 := mkB c (effs s) (memos s) (handles s) (holders s ++ [(HUser true, b)]) (allkeys s)).
+    set (s1 := mkB c (effs s) (memos s) (handles s) (holders s ++ [(HUser true, b)]) (allkeys s) (imms s)).
     assert (H1 : bstep_ok s s1).
     { split; [exact H|]. apply bwf_grow; auto. cbn. lia. }
-    assert (Hgo : forall l s0, o < length (owners (b_core s0)) ->
-              bstep_ok s0 ((fix go (l : list stmt) (s : bstate) : bstate :=
-                              match l with [] => s | x :: r => go r (exec_stmt o x s) end) l s0)).
-    { induction l as [|x l IHl]; intros s0 Hs0; [apply bstep_refl|].
-      pose proof (IH x o s0 Hs0) as Hx.
+assert (Hgo : forall l sx, o < length (owners (b_core sx)) ->
+              bstep_ok sx ((fix go (l : list stmt) (s : bstate) : bstate :=
+                              match l with [] => s | x :: r => go r (exec_stmt o x s) end) l sx)).
+    { induction l as [|x l IHl]; intros sx Hs0; [apply bstep_refl|].
+      pose proof (IH x o sx Hs0) as Hx.
       eapply bstep_trans; [exact Hx|]. apply IHl. pose proof (bstep_len _ _ Hx). lia. }
     eapply bstep_trans; [exact H1|]. apply Hgo. cbn. lia.
   - pose proof (cstep_new_owner (Some cur) (b_core s)) as H.
@@ -2063,11 +2067,12 @@ Proof.
     pose proof (cstep_alloc cur (IEffect (length (effs s))) c (fun _ => I)) as H2.
     destruct (alloc cur (IEffect (length (effs s))) c) as [k c2]. cbn [snd] in H2.
     pose proof (cstep_trans _ _ _ H H2) as H3. split; [exact H3|].
-    intros [W1 W2]. destruct H2 as (_ & _ & Hle2). split; cbn [effs memos b_core].
+    intros (W1 & W2 & W3). destruct H2 as (_ & _ & Hle2). repeat split; cbn [effs memos imms b_core].
     + apply Forall_app. split.
-      * eapply Forall_impl; [|exact W1]. cbn. intros; lia.
+      * eapply Forall_lt_mono; [|exact W1]. lia.
       * constructor; [cbn; lia|constructor].
-    + eapply Forall_impl; [|exact W2]. cbn. intros; lia.
+    + eapply Forall_lt_mono; [|exact W2]. lia.
+    + eapply Forall_lt_mono; [|exact W3]. lia.
   - pose proof (cstep_new_owner (Some cur) (b_core s)) as H.
     pose proof (new_owner_len (Some cur) (b_core s)) as Hl.
     pose proof (new_owner_memo_ok cur (length (memos s)) (b_core s) Hcur) as Hm.
@@ -2076,11 +2081,65 @@ Proof.
     pose proof (cstep_alloc cur (IMemo (length (memos s)) (length (owners (b_core s)))) c (fun _ => Hm)) as H2.
     destruct (alloc cur (IMemo (length (memos s)) (length (owners (b_core s)))) c) as [k c2]. cbn [snd] in H2.
     pose proof (cstep_trans _ _ _ H H2) as H3. split; [exact H3|].
-    intros [W1 W2]. destruct H2 as (_ & _ & Hle2). split; cbn [effs memos b_core].
-    + eapply Forall_impl; [|exact W1]. cbn. intros; lia.
+    intros (W1 & W2 & W3). destruct H2 as (_ & _ & Hle2). repeat split; cbn [effs memos imms b_core].
+    + eapply Forall_lt_mono; [|exact W1]. lia.
     + apply Forall_app. split.
-      * eapply Forall_impl; [|exact W2]. cbn. intros; lia.
+      * eapply Forall_lt_mono; [|exact W2]. lia.
       * constructor; [cbn; lia|constructor].
+    + eapply Forall_lt_mono; [|exact W3]. lia.
+  - (* render effect: owner, first run, then the effect record *)
+    pose proof (cstep_new_owner (Some cur) (b_core s)) as H.
+    pose proof (new_owner_len (Some cur) (b_core s)) as Hl.
+    assert (Ho : fst (new_owner (Some cur) (b_core s)) = length (owners (b_core s))) by reflexivity.
+    destruct (new_owner (Some cur) (b_core s)) as [o c]. cbn [fst snd] in *. subst o.
+    set (o := length (owners (b_core s))) in *.
+    set (s0 := mkB c (effs s) (memos s) (handles s) (holders s ++ [(HRender, b)]) (allkeys s) (imms s)).
+    assert (H0 : bstep_ok s s0).
+    { split; [exact H|]. apply bwf_grow; auto. cbn. lia. }
+    assert (H1 : bstep_ok s0 (blog s0 [LRendInit o])) by (apply blog_ok; reflexivity).
+    set (s1 := blog s0 [LRendInit o]) in *.
+assert (Hgo : forall l sx, o < length (owners (b_core sx)) ->
+              bstep_ok sx ((fix go (l : list stmt) (s : bstate) : bstate :=
+                              match l with [] => s | x :: r => go r (exec_stmt o x s) end) l sx)).
+    { induction l as [|x l IHl]; intros sx Hs0; [apply bstep_refl|].
+      pose proof (IH x o sx Hs0) as Hx.
+      eapply bstep_trans; [exact Hx|]. apply IHl. pose proof (bstep_len _ _ Hx). lia. }
+    assert (H2 : bstep_ok s1 ((fix go (l : list stmt) (s : bstate) : bstate :=
+                                 match l with [] => s | x :: r => go r (exec_stmt o x s) end) b s1)).
+    { apply Hgo. cbn. lia. }
+    set (s2 := (fix go (l : list stmt) (s : bstate) : bstate :=
+                  match l with [] => s | x :: r => go r (exec_stmt o x s) end) b s1) in *.
+    assert (H02 : bstep_ok s s2) by (eapply bstep_trans; [exact H0|eapply bstep_trans; eauto]).
+    split; [exact (proj1 H02)|].
+    intros W. destruct (proj2 H02 W) as (W1 & W2 & W3). repeat split; cbn [effs memos imms b_core]; auto.
+    apply Forall_app. split; [exact W1|]. constructor; [|constructor]. cbn [e_owner].
+    pose proof (bstep_len _ _ H1). pose proof (bstep_len _ _ H2). unfold s0 in *. cbn [b_core] in *. lia.
+  - (* immediate effect: owner, (empty) cleanup, first run *)
+    pose proof (cstep_new_owner (Some cur) (b_core s)) as H.
+    pose proof (new_owner_len (Some cur) (b_core s)) as Hl.
+    assert (Ho : fst (new_owner (Some cur) (b_core s)) = length (owners (b_core s))) by reflexivity.
+    destruct (new_owner (Some cur) (b_core s)) as [o c]. cbn [fst snd] in *. subst o.
+    set (o := length (owners (b_core s))) in *.
+    set (s1 := mkB (cleanup o c) (effs s) (memos s) (handles s) (holders s ++ [(HImm (length (imms s)), b)])
+                   (allkeys s) (imms s ++ [mkImm o b true])).
+    assert (Hc : cstep_ok (b_core s) (cleanup o c)) by (eapply cstep_trans; [exact H|apply cstep_exec]).
+    assert (Hlen1 : length (owners (b_core s1)) = S o).
+    { unfold s1. cbn [b_core]. unfold cleanup. rewrite (mono_len _ _ (exec_mono _ _ _)). exact Hl. }
+    assert (H1 : bstep_ok s s1).
+    { split; [exact Hc|]. intros (W1 & W2 & W3). repeat split; cbn [effs memos imms].
+      - eapply Forall_lt_mono; [|exact W1]. rewrite Hlen1. lia.
+      - eapply Forall_lt_mono; [|exact W2]. rewrite Hlen1. lia.
+      - apply Forall_app. split; [eapply Forall_lt_mono; [|exact W3]; rewrite Hlen1; lia|].
+        constructor; [cbn [i_owner]; rewrite Hlen1; lia|constructor]. }
+    assert (H2 : bstep_ok s1 (blog s1 [LImm (length (imms s))])) by (apply blog_ok; reflexivity).
+assert (Hgo : forall l sx, o < length (owners (b_core sx)) ->
+              bstep_ok sx ((fix go (l : list stmt) (s : bstate) : bstate :=
+                              match l with [] => s | x :: r => go r (exec_stmt o x s) end) l sx)).
+    { induction l as [|x l IHl]; intros sx Hs0; [apply bstep_refl|].
+      pose proof (IH x o sx Hs0) as Hx.
+      eapply bstep_trans; [exact Hx|]. apply IHl. pose proof (bstep_len _ _ Hx). lia. }
+    eapply bstep_trans; [exact H1|]. eapply bstep_trans; [exact H2|].
+    apply Hgo. pose proof (bstep_len _ _ H2). lia.
 Qed.
 
 Lemma exec_body_ok cur b : forall s, cur < length (owners (b_core s)) -> bstep_ok s (exec_body cur b s).
@@ -2093,7 +2152,9 @@ Qed.
 Lemma bwf_eff s i e : bwf s -> nth_error (effs s) i = Some e -> e_owner e < length (owners (b_core s)).
 Proof. intros [H _] Hn. rewrite Forall_forall in H. apply H. eapply nth_error_In; eauto. Qed.
 Lemma bwf_memo s i m : bwf s -> nth_error (memos s) i = Some m -> m_owner m < length (owners (b_core s)).
-Proof. intros [_ H] Hn. rewrite Forall_forall in H. apply H. eapply nth_error_In; eauto. Qed.
+Proof. intros (_ & H & _) Hn. rewrite Forall_forall in H. apply H. eapply nth_error_In; eauto. Qed.
+Lemma bwf_imm s i m : bwf s -> nth_error (imms s) i = Some m -> i_owner m < length (owners (b_core s)).
+Proof. intros (_ & _ & H) Hn. rewrite Forall_forall in H. apply H. eapply nth_error_In; eauto. Qed.
 
 Lemma Forall_upd {A} (P : A -> Prop) (f : A -> A) l : (forall x, P x -> P (f x)) ->
   forall i, Forall P l -> Forall P (upd i f l).
@@ -2108,7 +2169,7 @@ Proof.
 Qed.
 Lemma set_memo_ok s i f : (forall m, m_owner (f m) = m_owner m) -> bstep_ok s (set_memo s i f).
 Proof.
-  intros Hf. split; [apply cstep_refl|]. intros [W1 W2]. split; cbn; [exact W1|].
+  intros Hf. split; [apply cstep_refl|]. intros (W1 & W2 & W3). repeat split; cbn; auto.
   apply Forall_upd; [|exact W2]. intros e He. rewrite Hf. exact He.
 Qed.
 
@@ -2119,7 +2180,7 @@ Lemma poll_ok i s : bwf s -> bstep_ok s (poll i s).
 Proof.
   intros W. unfold poll. destruct (nth_error (effs s) i) as [e|] eqn:He; [|apply bstep_refl].
   destruct (negb (eff_ready s e)); [apply bstep_refl|].
-  destruct (negb (contains (b_core s) (e_key e))).
+  destruct (negb (eff_alive s e)).
   { set (s1 := set_eff s i _).
     assert (B1 : bstep_ok s s1) by (apply set_eff_ok; reflexivity).
     eapply bstep_trans; [exact B1|]. apply bstep_core, cstep_exec. }
@@ -2148,7 +2209,7 @@ Qed.
 
 Lemma user_body_lt s o b : user_body s o = Some b -> o < length (owners (b_core s)).
 Proof.
-  unfold user_body. destruct (nth_error (holders s) o) as [[[[]|?|?] b']|]; try discriminate.
+  unfold user_body. destruct (nth_error (holders s) o) as [[[[]|?|?|?|] b']|]; try discriminate.
   destruct (alive (b_core s) o) eqn:Hal; [|discriminate]. intros _.
   unfold alive in Hal. destruct (nth_error (owners (b_core s)) o) eqn:E; [|discriminate].
   apply nth_error_Some. congruence.
@@ -2164,11 +2225,11 @@ Proof.
     pose proof (user_body_lt s o b Hu). pose proof (bstep_len _ _ B1). lia.
   - destruct (user_body s o); [apply bstep_core, cstep_exec|apply bstep_refl].
   - destruct (user_body s o) as [b|]; [|apply bstep_refl].
-    set (s1 := mkB _ _ _ _ _ _).
+    set (s1 := mkB _ _ _ _ _ _ _).
     assert (B1 : bstep_ok s s1) by (split; [apply cstep_refl|auto]).
     eapply bstep_trans; [exact B1|]. apply bstep_core, cstep_exec.
   - destruct (nth_error (effs s) e) as [ef|]; [|apply bstep_refl].
-    destruct (negb (e_first ef) && contains (b_core s) (e_key ef)); [apply set_eff_ok; reflexivity|apply bstep_refl].
+    destruct (negb (e_first ef) && eff_alive s ef); [apply set_eff_ok; reflexivity|apply bstep_refl].
   - destruct (nth_error (memos s) m) as [mm|]; [|apply bstep_refl].
     destruct (m_sub mm && contains (b_core s) (m_key mm)); [apply set_memo_ok; reflexivity|apply bstep_refl].
   - destruct (nth_error (memos s) m) as [mm|] eqn:Hm; [|apply bstep_refl].
@@ -2193,7 +2254,22 @@ Proof.
   - destruct (user_body s o); [apply bstep_core, cstep_skel, skel_set_paused|apply bstep_refl].
   - destruct (user_body s o); [apply blog_ok; reflexivity|apply bstep_refl].
   - destruct (nth_error (memos s) m); [apply bstep_core, cstep_exec|apply bstep_refl].
-  - destruct (nth_error (effs s) e); [apply bstep_core, cstep_exec|apply bstep_refl].
+  - destruct (nth_error (effs s) e) as [ef|]; [|apply bstep_refl].
+    destruct (e_render ef); [apply set_eff_ok; reflexivity|apply bstep_core, cstep_exec].
+  - destruct (nth_error (imms s) i) as [m|] eqn:Hm; [|apply bstep_refl].
+    destruct (i_held m && negb (paused (b_core s) (i_owner m))); [|apply bstep_refl].
+    set (s1 := set_core s (cleanup (i_owner m) (b_core s))).
+    assert (B1 : bstep_ok s s1) by (apply bstep_core, cstep_exec).
+    assert (B2 : bstep_ok s1 (blog s1 [LImm i])) by (apply blog_ok; reflexivity).
+    eapply bstep_trans; [exact B1|]. eapply bstep_trans; [exact B2|]. apply exec_body_ok.
+    pose proof (bwf_imm s i m W Hm). pose proof (bstep_len _ _ B1). pose proof (bstep_len _ _ B2). lia.
+  - destruct (nth_error (imms s) i) as [m|]; [|apply bstep_refl].
+    destruct (i_held m); [|apply bstep_refl].
+    set (s1 := mkB _ _ _ _ _ _ _).
+    assert (B1 : bstep_ok s s1).
+    { split; [apply cstep_refl|]. intros (W1 & W2 & W3). repeat split; auto. cbn [imms s1].
+      apply Forall_upd; [|exact W3]. auto. }
+    eapply bstep_trans; [exact B1|]. apply bstep_core, cstep_exec.
 Qed.
 
 (** ** reachable program states *)
@@ -2213,9 +2289,9 @@ Proof.
   pose proof (new_owner_len None core0) as Hl.
   destruct (new_owner None core0) as [o c] eqn:E. cbn [snd] in *.
   assert (Eo : o = 0) by (apply (f_equal fst) in E; cbn in E; auto). subst o.
-  set (s0 := mkB c [] [] [] [(HUser true, b)] []).
+  set (s0 := mkB c [] [] [] [(HUser true, b)] [] []).
   assert (G0 : good s0).
-  { split; [exact (proj1 H cinv_core0)|]. split; constructor. }
+  { split; [exact (proj1 H cinv_core0)|]. repeat split; constructor. }
   destruct G0 as [I0 W0].
   assert (B : bstep_ok s0 (exec_body 0 b s0)) by (apply exec_body_ok; cbn; lia).
   destruct B as [(Hi & _) Hw]. split; auto.
@@ -2290,7 +2366,7 @@ Qed.
 
 (** an effect whose arena entry is gone does not run when its task is polled: the task ends *)
 Theorem disposed_effect_never_runs : forall s i e,
-  nth_error (effs s) i = Some e -> contains (b_core s) (e_key e) = false -> e_done e = false ->
+  nth_error (effs s) i = Some e -> eff_alive s e = false -> e_done e = false ->
   let s' := poll i s in
   (exists ef, nth_error (effs s') i = Some ef /\ e_done ef = true) /\
   forall j, In (LEff j) (clog (b_core s')) -> In (LEff j) (clog (b_core s)).
@@ -2420,4 +2496,16 @@ Example ex_all_gone :
   let c := final_core ex_body [RunAll []; ReadMemo 0; DropOwner 0; DropOwner 1; DropOwner 2; RunAll []] in
   err c = false /\ unowned c = false /\ arena_len c = 0 /\
   forallb (fun ow => negb (o_alive ow)) (owners c) = true.
+Proof. vm_compute. auto. Qed.
+
+(** the other effect kinds: a RenderEffect re-runs under [with_cleanup] like every other scope, an
+    ImmediateEffect re-runs synchronously; dropping their handles releases what they created *)
+Definition ex_body2 : list stmt :=
+  [SRender [SOnCleanup; SNewStored; SImm [SOnCleanup]]; SImm [SOnCleanup; SNewSig]].
+Example ex_render_imm :
+  let c0 := final_core ex_body2 [] in
+  let c1 := final_core ex_body2 [NotifyEffect 0; RunAll []] in
+  let c2 := final_core ex_body2 [NotifyEffect 0; RunAll []; NotifyImm 1; DisposeEffect 0; RunAll []; DropImm 1; DropOwner 0] in
+  cids (clog c0) = [] /\ cids (clog c1) = [0; 1] /\
+  cids (clog c2) = [5; 3; 4; 2; 0; 1] /\ arena_len c2 = 0 /\ err c2 = false.
 Proof. vm_compute. auto. Qed.
